@@ -12,6 +12,7 @@ MCIDOrder == CASE Scenario = 1 -> <<"P0", "P1", "P2", "P3", "W1", "W2", "A1", "R
                [] Scenario = 2 -> <<"P0", "P1", "P4", "W1", "R1", "C1">>
                [] Scenario = 3 -> <<"P0", "P1", "P2", "P3", "P4", "W1", "W2", "W3", "A1", "A2", "R1", "R2", "C1">>
                [] Scenario = 7 -> <<"P0", "P1", "P2", "P3", "P4", "W1", "W2", "W3", "A1", "A2", "R1">>
+               [] Scenario = 8 -> <<"P0", "P1", "P2", "P3", "W1", "W2", "W3", "A1", "R1", "C1">>
                [] Scenario = 4 -> <<"P0", "R1", "R2">>
                [] OTHER -> <<"P0", "P1", "P2", "P3", "W1">>
 
@@ -72,22 +73,51 @@ Cand5 == { C("P1", Pt(3, NT)),                                       \* move a p
            C("P3", Pt(5, T("x", "-", "-"))) }
 
 \* ---- scenario 7: merged changes, all or nothing (C13)
-MAdd(id, f) == [op |-> "add", id |-> id, f |-> f, k |-> "", v |-> ""]
-MTag(id, k, v) == [op |-> "addtag", id |-> id, f |-> Absent, k |-> k, v |-> v]
-MRm(id, k) == [op |-> "rmtag", id |-> id, f |-> Absent, k |-> k, v |-> ""]
+\* a sub-change carries the number g of the part of the MergedChange it belongs to: consecutive sub-changes with the
+\* same g form ONE part (an AddFeatures / AddTags / RemoveTags with several items), others separate parts
+MAddG(g, id, f) == [op |-> "add", g |-> g, id |-> id, f |-> f, k |-> "", v |-> ""]
+MTagG(g, id, k, v) == [op |-> "addtag", g |-> g, id |-> id, f |-> Absent, k |-> k, v |-> v]
+MRmG(g, id, k) == [op |-> "rmtag", g |-> g, id |-> id, f |-> Absent, k |-> k, v |-> ""]
 Cand7 == { C("P3", Pt(5, NT)) }
-Merges7 == { <<MAdd("P3", Pt(5, T("-", "-", "x"))), MAdd("W2", Pa(<<"P0", "P3">>, T("x", "-", "-")))>>,
-             <<MAdd("W2", Pa(<<"P0", "P3">>, NT))>>,
-             <<MTag("P0", "n", "x"), MAdd("W1", Pa(<<"P0", "P1">>, NT))>>,
-             <<MAdd("P4", Pt(6, T("y", "-", "-"))), MTag("P2", "#s", "x"), MTag("W3", "n", "x")>>,
-             <<MRm("P0", "#s"), MAdd("W1", Pa(<<"P0", "P2", "P1", "P0">>, NT))>>,
-             <<MAdd("P3", Pt(5, NT)), MAdd("W3", Pa(<<"P1", "P2", "P3", "P1">>, NT)), MAdd("A2", Ar(<< <<"W3">> >>, T("-", "x", "-")))>>,
-             <<MAdd("A2", Ar(<< <<"W3">> >>, NT)), MAdd("P3", Pt(5, NT))>> }
+Merges7 == { \* parts of one item each
+             <<MAddG(1, "P3", Pt(5, T("-", "-", "x"))), MAddG(2, "W2", Pa(<<"P0", "P3">>, T("x", "-", "-")))>>,
+             <<MAddG(1, "W2", Pa(<<"P0", "P3">>, NT))>>,
+             <<MTagG(1, "P0", "n", "x"), MAddG(2, "W1", Pa(<<"P0", "P1">>, NT))>>,
+             <<MAddG(1, "P4", Pt(6, T("y", "-", "-"))), MTagG(2, "P2", "#s", "x"), MTagG(3, "W3", "n", "x")>>,
+             <<MRmG(1, "P0", "#s"), MAddG(2, "W1", Pa(<<"P0", "P2", "P1", "P0">>, NT))>>,
+             <<MAddG(1, "P3", Pt(5, NT)), MAddG(2, "W3", Pa(<<"P1", "P2", "P3", "P1">>, NT)), MAddG(3, "A2", Ar(<< <<"W3">> >>, T("-", "x", "-")))>>,
+             <<MAddG(1, "A2", Ar(<< <<"W3">> >>, NT)), MAddG(2, "P3", Pt(5, NT))>>,
+             \* ONE part with several items, a later one failing (the merged change has a single part)
+             <<MAddG(1, "P4", Pt(6, T("x", "-", "-"))), MAddG(1, "W2", Pa(<<"P0", "P3">>, NT))>>,
+             <<MTagG(1, "P0", "n", "x"), MTagG(1, "P4", "n", "x")>>,
+             <<MTagG(1, "P1", "#s", "y"), MTagG(1, "W2", "n", "x")>>,
+             \* one part with several items, all fine
+             <<MAddG(1, "P3", Pt(5, NT)), MAddG(1, "W2", Pa(<<"P0", "P3">>, T("y", "-", "-")))>>,
+             \* two parts, the second with a failing second item
+             <<MTagG(1, "P2", "n", "y"), MAddG(2, "P4", Pt(6, NT)), MAddG(2, "W1", Pa(<<"P0", "P1">>, NT))>> }
 MCMerges == IF Scenario = 7 THEN Merges7 ELSE {}
 
-MCBase == CASE Scenario = 7 -> Base3 [] Scenario = 1 -> Base1 [] Scenario = 2 -> Base2 [] Scenario = 3 -> Base3
+\* ---- scenario 8: features re-added with more / fewer polygons, members, items, tags and points than the stored
+\*      version (the grow and shrink branches of MergeFrom), then the caller changes what it passed in (C38, C12)
+Base8 == World([P0 |-> Pt(0, T("x", "-", "-")), P1 |-> Pt(1, NT), P2 |-> Pt(2, NT), P3 |-> Pt(5, NT),
+                W1 |-> Pa(<<"P0", "P1", "P2", "P0">>, NT),
+                W3 |-> Pa(<<"P1", "P2", "P3", "P1">>, NT),
+                A1 |-> Ar(<< <<"W1">> >>, T("-", "-", "x")),
+                R1 |-> Re(<<"A1", "P0">>, NT)])
+Cand8 == { C("A1", Ar(<< <<"W1">>, <<"W3">> >>, T("-", "-", "x"))),      \* grows by a polygon
+           C("A1", Ar(<< <<"W3">> >>, T("y", "-", "-"))),                 \* same size, other path
+           C("R1", Re(<<"A1", "P0", "P1", "W1">>, T("-", "x", "-"))),     \* grows by two members
+           C("R1", Re(<<"W3">>, NT)),                                     \* shrinks
+           C("P0", Pt(0, T("x", "x", "y"))),                              \* more tags
+           C("P0", Pt(0, NT)),                                            \* fewer tags
+           C("C1", Co(<<"P0", "W1">>, NT)),                               \* new
+           C("C1", Co(<<"P1", "A1", "W3">>, T("-", "-", "y"))),           \* grows
+           C("W2", Pa(<<"P0", "P3">>, T("x", "-", "-"))),                 \* new
+           C("W2", Pa(<<"P0", "P3", "P2">>, T("x", "-", "-"))) }          \* grows by a point
+
+MCBase == CASE Scenario = 7 -> Base3 [] Scenario = 8 -> Base8 [] Scenario = 1 -> Base1 [] Scenario = 2 -> Base2 [] Scenario = 3 -> Base3
             [] Scenario = 4 -> Base4 [] Scenario = 5 -> Base5 [] Scenario = 6 -> Base5
-MCCandidates == CASE Scenario = 7 -> Cand7 [] Scenario = 1 -> Cand1 [] Scenario = 2 -> Cand2 [] Scenario = 3 -> Cand3
+MCCandidates == CASE Scenario = 7 -> Cand7 [] Scenario = 8 -> Cand8 [] Scenario = 1 -> Cand1 [] Scenario = 2 -> Cand2 [] Scenario = 3 -> Cand3
                   [] Scenario = 4 -> Cand4 [] Scenario = 5 -> Cand5 [] Scenario = 6 -> Cand5
 MCAddTagOps ==
    CASE Scenario = 1 -> {<<"P0", "#s", "x">>, <<"P0", "#s", "y">>, <<"P0", "n", "y">>,
@@ -107,8 +137,8 @@ MCRmTagOps ==
      [] Scenario = 6 -> {<<"P0", "#s">>}
      [] OTHER -> {}
 MCMaxSnaps == CASE Scenario = 5 -> 1 [] Scenario = 6 -> 2 [] OTHER -> 0
-MCWithMutate == Scenario \in {2, 3}
-MCWithRoundTrip == Scenario \in {1, 2, 3}
+MCWithMutate == Scenario \in {2, 3, 8}
+MCWithRoundTrip == Scenario \in {1, 2, 3, 8}
 
 Tg(k, v) == [k |-> "tagged", key |-> k, val |-> v]
 Ky(k) == [k |-> "keyed", key |-> k]
